@@ -1,4 +1,4 @@
-PROPS = ["CTV.Props.C08", "CTV.Props.C08Tie", "CTV.Model.HandlerSpec"]
+PROPS = ["CTV.Props.C08", "CTV.Props.C08Tie", "CTV.Model.HandlerSpec", "CTV.Model.HandlerCheckSpec"]
 HARNESS = [dict(pkg="./trillian/ctfe/", test="TestVerifC08")]
 EXHAUSTIVE = True
 RULE = ("exhaustive fault matrix through the real AppHandler.ServeHTTP with a scripted backend: 8 endpoints × valid request variants × "
